@@ -22,7 +22,7 @@ import numpy as np
 
 import vlib
 
-EXTRA_TARGETS = ['Props/C13x.vo']
+EXTRA_TARGETS = ['Props/C13x.vo', 'Refuted/C13x_cube_default.vo']
 GEN_EXTRA = ['Globals']
 IMPORTS = ("From Coq Require Import ZArith List Bool.\nFrom Aegean Require Import Gen.Globals Model.Globals.\n"
            "Import ListNotations.\nOpen Scope Z_scope.\n")
@@ -45,7 +45,8 @@ ASSUMPTIONS_EXTRA = [
     'sign-symmetric)',
     'recorded behaviour, not treated as violations: load_globals on an object that already holds data is a no-op whatever file is '
     'named (second catalogue describes the first image); after an AegeanError in _load_aux_image the object keeps the raw image; '
-    'cube_index=None (the API default) on a 3-D file raises IndexError although BANE reads None as plane 0',
+    'cube_index=None (the API default) means the first plane (repaired in load_globals; Refuted/C13x_cube_default.v keeps the old '
+    'behaviour: IndexError on every 3-D / 4-D file); for a 2-D file the index handed to BANE may be None or 0 (same plane)',
 ]
 
 logging.disable(logging.CRITICAL)
@@ -79,6 +80,11 @@ class patched_bane:
 
 
 # ------------------------------------------------------------------------------------------ cases
+def nax(c):
+    """NAXIS of the image file of a call (2, 3 or 4; a 4-D file has shape (1, planes, rows, columns))"""
+    return c.get('naxis', 3 if c.get('is3d') else 2)
+
+
 def gen_plane(rng, shape, blanks):
     r, c = shape
     style = rng.choice(['random', 'random', 'ramp', 'peaks'])
@@ -111,17 +117,18 @@ def gen_aux(rng, shape, kind):
 
 def gen_call(rng, shape=None):
     shape = shape or (rng.randint(4, 8), rng.randint(4, 9))
-    is3d = rng.random() < 0.25
+    naxis = rng.choice([2, 2, 2, 2, 2, 3, 3, 3, 4])
+    is3d = naxis >= 3
     do_curve = rng.random() < 0.4
     blanks = (not do_curve) and rng.random() < 0.4
     planes = [gen_plane(rng, shape, blanks) for _ in range(rng.randint(2, 3) if is3d else 1)]
-    ci = rng.choice([None, 0, 0, 1]) if not is3d else rng.choice([None, 0, 1, len(planes) - 1, len(planes) - 1])
+    ci = rng.choice([None, None, 0, 1]) if not is3d else rng.choice([None, None, 0, 1, len(planes) - 1])
 
     def aux():
         k = rng.choice(['none', 'none', 'plain', 'plain', 'compressed', 'badshape'] if min(shape) >= 6 else
                        ['none', 'none', 'plain', 'plain', 'badshape'])
         return None if k == 'none' else gen_aux(rng, shape, k)
-    return {'is3d': is3d, 'planes': planes, 'ci': ci, 'rms': rng.choice([None, None, 1, 2, 4]),
+    return {'is3d': is3d, 'naxis': naxis, 'planes': planes, 'ci': ci, 'rms': rng.choice([None, None, 1, 2, 4]),
             'bkg': rng.choice([None, None, 0, 3, -2]), 'rmsin': aux(), 'bkgin': aux(), 'do_curve': do_curve,
             'mask': rng.choice(['none', 'none', 'obj', 'file', 'missing']), 'cores': rng.choice([1, 2, 3])}
 
@@ -131,7 +138,11 @@ def fixed_cases():
     img = [[0, 1, 5, 1, 0, -2], [2, 9, 3, -4, 0, 1], [0, 1, 0, 1, -7, 1], [3, 0, 2, 0, 1, 0]]
     bk = {'compressed': False, 'data': [[1] * 6, [2] * 6, [0] * 6, [-1] * 6], 'factor': 0}
     rm = {'compressed': False, 'data': [[2] * 6] * 4, 'factor': 0}
-    out = []
+    other0 = [[v + 10 for v in row] for row in img]
+    cube = {'is3d': True, 'naxis': 3, 'planes': [img, other0], 'ci': None, 'rms': 1, 'bkg': 0, 'rmsin': None, 'bkgin': None,
+            'do_curve': False, 'mask': 'none', 'cores': 1}
+    # cube_index not given: the first plane (forced maps; BANE on the cube; a 4-D file; then index 1 on a fresh object)
+    out = [[cube], [dict(cube, rms=None, bkg=None)], [dict(cube, naxis=4, do_curve=True)], [dict(cube, ci=1)]]
     for rms in (None, 4):
         for bkg in (None, 3):
             for rmsin in (None, rm):
@@ -139,13 +150,13 @@ def fixed_cases():
                     out.append([{'is3d': False, 'planes': [img], 'ci': None, 'rms': rms, 'bkg': bkg, 'rmsin': rmsin, 'bkgin': bkgin,
                                  'do_curve': True, 'mask': 'none', 'cores': 1}])
     bad = {'compressed': False, 'data': [[1] * 5] * 4, 'factor': 0}
-    a = dict(out[0][0], bkgin=bad, rms=2)
-    b = dict(out[0][0], bkgin=bk, rms=2)
+    two = out[4][0]
+    a = dict(two, bkgin=bad, rms=2)
+    b = dict(two, bkgin=bk, rms=2)
     out.append([a, b])                                              # raise, then the repeated call with a good file
     other = [[v + 10 for v in row] for row in img]
-    out.append([dict(out[0][0], rms=1, bkg=0), dict(out[0][0], planes=[other], rms=1, bkg=0)])    # second call, another image
-    out.append([dict(out[0][0], is3d=True, planes=[img, other], ci=None, rms=1, bkg=0),
-                dict(out[0][0], is3d=True, planes=[img, other], ci=1, rms=1, bkg=0)])             # IndexError, then plane 1
+    out.append([dict(two, rms=1, bkg=0), dict(two, planes=[other], rms=1, bkg=0)])    # second call, another image
+    out.append([dict(cube), dict(cube, ci=1)])                                           # plane 0, then a no-op
     return out
 
 
@@ -184,7 +195,7 @@ def g_aux(a):
 
 def g_call(c):
     mask = {'none': 'MNone', 'obj': '(MObj 1)', 'file': '(MFile true 2)', 'missing': '(MFile false 2)'}[c['mask']]
-    return (f"(mkIn {'true' if c['is3d'] else 'false'} [{'; '.join(g_img(p) for p in c['planes'])}] "
+    return (f"(mkIn {'true' if nax(c) >= 3 else 'false'} [{'; '.join(g_img(p) for p in c['planes'])}] "
             f"{g_opt(c['ci'], lambda k: f'{k}%nat')} {g_opt(c['rms'], lambda v: vlib.zlit(v * SCALE))} "
             f"{g_opt(c['bkg'], lambda v: vlib.zlit(v * SCALE))} {g_aux(c['rmsin'])} {g_aux(c['bkgin'])} "
             f"{'true' if c['do_curve'] else 'false'} {mask})")
@@ -232,12 +243,13 @@ def to_array(rows):
     return np.array([[np.nan if v is None else float(v) for v in row] for row in rows], dtype=np.float64)
 
 
-def write_planes(path, planes, is3d):
+def write_planes(path, planes, naxis):
     from astropy.io import fits
     from fixtures import make_header
     arr = [to_array(p) for p in planes]
     h = make_header(arr[0].shape, cdelt=10.0 / 3600, beam=(30.0 / 3600, 30.0 / 3600, 0.0))
-    data = np.stack(arr) if is3d else arr[0]
+    naxis = {False: 2, True: 3}.get(naxis, naxis)
+    data = arr[0] if naxis == 2 else np.stack(arr) if naxis == 3 else np.stack(arr)[None, ...]
     hdu = fits.PrimaryHDU(data)
     for k, v in h.items():
         if k not in hdu.header:
@@ -297,7 +309,7 @@ def run_history(h, work, tag):
     with patched_bane():
         for k, c in enumerate(h):
             base = os.path.join(work, f'{tag}_{k}')
-            hdr = write_planes(base + '.fits', c['planes'], c['is3d'])
+            hdr = write_planes(base + '.fits', c['planes'], nax(c))
             shape = (len(c['planes'][0]), len(c['planes'][0][0]))
             kw = {}
             for nm in ('rmsin', 'bkgin'):
@@ -328,7 +340,9 @@ def run_history(h, work, tag):
             for bc in BANE_CALLS:
                 st = get_step_size(g.header if g.header is not None else hdr)
                 want = {'im_name': base + '.fits', 'out_base': None, 'step_size': st, 'box_size': (5 * st[0], 5 * st[1]),
-                        'cores': c['cores'], 'cube_index': c['ci']}
+                        'cores': c['cores'], 'cube_index': 0 if c['ci'] is None else c['ci']}
+                if c['ci'] is None and nax(c) == 2 and bc.get('cube_index') is None:
+                    want['cube_index'] = None       # a 2-D file: None and 0 name the same plane
                 if {k2: (tuple(v) if isinstance(v, (list, tuple)) else v) for k2, v in bc.items()} != want:
                     problems.append(f'call {k}: filter_image received {bc}, expected {want}')
     return obs, problems
@@ -344,10 +358,7 @@ def oracle(h):
         if state is not None:
             out.append(dict(state, ok=True, noop=True))
             continue
-        if c['is3d'] and c['ci'] is None:
-            out.append({'ok': False})
-            continue
-        raw = c['planes'][c['ci']] if c['is3d'] else c['planes'][0]
+        raw = c['planes'][c['ci'] or 0] if nax(c) >= 3 else c['planes'][0]     # cube_index not given: the first plane
         R, C = len(raw), len(raw[0])
         fin = [v for row in raw for v in row if v is not None]
 
@@ -372,7 +383,9 @@ def oracle(h):
             continue
         img = [[None if (a is None or b is None) else a - b for a, b in zip(ra, rb)] for ra, rb in zip(raw8, bkg)]
         state = {'img': img, 'bkg': bkg, 'rms': rms, 'region': {'none': None, 'obj': 1, 'file': 2, 'missing': None}[c['mask']],
-                 'ci': c['ci'], 'bane_calls': 1 if need_bane else 0}
+                 'bane_calls': 1 if need_bane else 0}
+        if c['ci'] is not None or nax(c) >= 3:
+            state['ci'] = c['ci'] or 0
         out.append(dict(state, ok=True))
     return out
 
@@ -400,7 +413,7 @@ def history_problem(h, work, tag='h'):
 def describe(h):
     def aux(a):
         return None if a is None else {'compressed': a['compressed'], 'factor': a['factor'], 'data': a['data']}
-    return [{**{k: c[k] for k in ('is3d', 'planes', 'ci', 'rms', 'bkg', 'do_curve', 'mask', 'cores')},
+    return [{**{k: c[k] for k in ('planes', 'ci', 'rms', 'bkg', 'do_curve', 'mask', 'cores')}, 'naxis': nax(c), 'is3d': nax(c) >= 3,
              'rmsin': aux(c['rmsin']), 'bkgin': aux(c['bkgin'])} for c in h]
 
 
@@ -469,6 +482,38 @@ def end_to_end(ctx):
     return c13.rows_mirrored(p, n), p, n
 
 
+def cube_end_to_end(ctx, work):
+    """find_sources_in_image(cube) with default arguments (cube_index not given; real BANE) completes and equals cube_index=0"""
+    from astropy.io import fits
+    from AegeanTools.source_finder import SourceFinder
+    from fixtures import make_header
+    from harness import c13
+    a = dict(E2E_SPEC, mode='forced', bkg0=0.0)
+    img, _, _ = c13.build_image(a)
+    other, _, _ = c13.build_image(dict(a, sources=[[12.0, 30.0, 30.0, 1.6, 1.3, 10.0]], noise_seed=12))
+    os.makedirs(work, exist_ok=True)
+    path = os.path.join(work, 'cube_e2e.fits')
+    hdu = fits.PrimaryHDU(np.stack([img, other]).astype(np.float64))
+    for k, v in make_header(img.shape).items():
+        if k not in hdu.header:
+            hdu.header[k] = v
+    hdu.writeto(path, overwrite=True)
+
+    def rows(**kw):
+        return [(s.island, s.source, float(s.peak_flux), float(s.ra), float(s.dec), float(s.a), float(s.b), float(s.pa), int(s.flags))
+                for s in SourceFinder().find_sources_in_image(path, cores=1, **kw)]
+    try:
+        dflt = rows()
+    except Exception as e:  # noqa
+        return f'find_sources_in_image(<2 x 64 x 64 cube>) with cube_index not given raised {type(e).__name__}: {e}'
+    zero = rows(cube_index=0)
+    if not zero:
+        return 'no rows for plane 0 of the cube'
+    if dflt != zero:
+        return f'cube_index not given: {len(dflt)} rows, cube_index=0: {len(zero)} rows, or different values'
+    return None
+
+
 def behaviour_notes(ctx, work):
     """the recorded behaviours of the early return, replayed on the real find_sources_in_image (two images, one object)"""
     from AegeanTools.source_finder import SourceFinder
@@ -527,7 +572,7 @@ def run_extra(ctx, model_ok=True):
                 ctx.oblige('coqchk -o re-checks Props/C13x.vo and everything it depends on', cok, clog)
                 ctx.oblige('coqchk (C13x): no axioms in the dependency cone', not cax, cax)
     ctx.rule += (' EXTENSION (load_globals glue): histories of one or two load_globals calls on one SourceFinder object; per call a '
-                 '2-D or 3-D integer-valued FITS file, forced rms / bkg or none, rmsin / bkgin plain / BANE-compressed / of another '
+                 '2-D, 3-D or 4-D integer-valued FITS file (cube_index given or not), forced rms / bkg or none, rmsin / bkgin plain / BANE-compressed / of another '
                  'shape / absent, cube_index, do_curve, mask as object / file / missing file; distinct = distinct history; non-trivial '
                  '= at least one of the four map options is set.')
     work = os.path.join(ctx.work, 'c13x')
@@ -590,6 +635,13 @@ def run_extra(ctx, model_ok=True):
     if msg:
         ctx.mismatch('finder on img / -img with background and noise files', {'spec': E2E_SPEC}, impl=msg,
                      is_violation={'kind': 'e2e', 'spec': E2E_SPEC, 'what': msg})
+    msg = cube_end_to_end(ctx, work)
+    ctx.case(key=('e2e', 'cube'), bucket='finder-cube-default-index')
+    ctx.oblige('end to end: find_sources_in_image on a 2 x 64 x 64 cube with default arguments (cube_index not given, real BANE) '
+               'completes and equals the run with cube_index=0', msg is None, msg)
+    if msg:
+        ctx.mismatch('finder on a cube without cube_index', {'cube': 'E2E_SPEC (forced) + a second plane'}, impl=msg,
+                     is_violation={'kind': 'cube-e2e', 'what': msg})
     try:
         n1, n2, n3, same = behaviour_notes(ctx, work)
         ctx.notes.append(f'C13x recorded behaviour: one SourceFinder object, find_sources_in_image(A) then (B): the second call returns '
@@ -635,7 +687,9 @@ def search_extra(ctx):
 
 def replay_extra(ctx, fi):
     work = os.path.join(ctx.work, 'c13x_replay')
-    if fi['kind'] == 'glue':
+    if fi['kind'] == 'cube-e2e':
+        msg = cube_end_to_end(ctx, work)
+    elif fi['kind'] == 'glue':
         h = fi['history']
         msg, obs = history_problem(h, work, 'r')
         print('history:', json.dumps(describe(h))[:3000])
